@@ -177,7 +177,7 @@ class Elem:
 
 
 class Block:
-    __slots__ = ('id', 'elems', 'term', 'cond', 'succs', 'noreturn', 'termstmt')
+    __slots__ = ('id', 'elems', 'term', 'cond', 'succs', 'noreturn', 'termstmt', 'label', 'labelv')
 
 
 class CFG:
@@ -200,6 +200,8 @@ class CFG:
             B.term = b.get('term'); B.cond = Node(tu, b['cond']) if b.get('cond') else None
             B.termstmt = Node(tu, b['termstmt']) if b.get('termstmt') else None
             B.succs = b['succs']; B.noreturn = b.get('noreturn', False)
+            B.label = b.get('label'); B.labelv = Node(tu, b['labelv']) if b.get('labelv') else None
+            if b.get('labelrange'): B.label = 'case-range'
             self.blocks[B.id] = B
         self.preds = collections.defaultdict(list)
         for B in self.blocks.values():
